@@ -121,4 +121,21 @@ CHECKS = {
              "distinct = distinct (config, op count, last ops) hashes.",
         assumptions=COMMON_ASSUME + ["porcupine v1.3.0; checker timeout (10 s) is inconclusive", "fractions sum <= 1 also after dynamic adds"],
     ),
+    "C14": dict(
+        pkg="c14", race=False, shards=(4, 16), timeout_s=(300, 1800),
+        technique="event-sequence monitor over test doubles (recording limiter/listener/handler/invoker/stream, scripted classifiers)",
+        level_text="Every intercepted call is judged from the recorded event sequence: exactly one Acquire, on the limiter configured for that "
+                   "operation (unary / receive / send), before the wrapped call; wrapped call invoked iff granted; exactly one completion whose "
+                   "outcome equals the consulted classifier's result (success for an error-free stream op; default classifiers when none configured); "
+                   "result and error returned by identity; on refusal nothing else touched and the status code equals the limit-exceeded "
+                   "classifier's. All option combinations incl. defaults, random RecvMsg/SendMsg sequences, plus a shared interceptor over a real "
+                   "DefaultLimiter whose in-flight must return to 0. Exploration over seeded inputs.",
+        require=["unary_calls", "stream_ops", "granted_calls_checked", "refused_calls_checked", "send_ops_on_recording_send_limiter",
+                 "recv_ops_on_recording_recv_limiter", "shared_interceptor_calls"],
+        rule="case = unary client/server call (grant/refuse, handler result, classifier result, option subset) or a stream with 1-12 RecvMsg/SendMsg ops "
+             "(each with its own grant/error/classifier result) or a shared-interceptor stress; non-trivial = every judged case; distinct = distinct "
+             "(option subset, outcomes, op sequence).",
+        assumptions=COMMON_ASSUME + ["classifiers return one of success/ignore/dropped and a non-nil error with a non-OK code on refusal (as quantified)",
+                                     "which of the two stream response classifiers serves which direction is left open: exactly one must be consulted"],
+    ),
 }
